@@ -137,11 +137,11 @@ def build(case):
     return "\n".join(lines), used
 
 
-def run_one(text, raw_on, file_on):
+def run_one(text, raw_on, file_on, suppress=()):
     from docutils import nodes
 
     src = os.path.join(TMP, "doc.md")
-    kw = dict(myst_enable_extensions=EXT, myst_substitutions={"rawsub": "<x-sentinel-777 a=\"1\">", "rawsub_inline": "<x-sentinel-778 a=\"1\">"}, raw_enabled=raw_on, file_insertion_enabled=file_on, doctitle_xform=False)
+    kw = dict(myst_enable_extensions=EXT, myst_substitutions={"rawsub": "<x-sentinel-777 a=\"1\">", "rawsub_inline": "<x-sentinel-778 a=\"1\">"}, raw_enabled=raw_on, file_insertion_enabled=file_on, doctitle_xform=False, myst_suppress_warnings=list(suppress))
     AUDIT.clear()
     AUDIT.enabled = True
     doc, w = drive.parse(text, source_path=src, **kw)
@@ -161,7 +161,7 @@ def eval_case(ctx, case):
     for raw_on in (True, False):
         for file_on in (True, False):
             try:
-                res[(raw_on, file_on)] = run_one(text, raw_on, file_on)
+                res[(raw_on, file_on)] = run_one(text, raw_on, file_on, case.get("suppress", ()))
             except Exception as e:  # noqa: BLE001
                 sig = core.exc_signature(e)
                 ctx.violation(f"raises:{sig['type']}:{sig['myst'] or sig['inner']}", f"raw_enabled={raw_on} file_insertion_enabled={file_on}: rendering raised {sig['type']}: {sig['msg']}", case, {"text": text, **sig})
@@ -258,7 +258,7 @@ def run_shard(ctx):
     nr = 130 if quick else 6000
     for i in range(nr):
         items = [[R.choice(names), R.choice(["top", "top", "quote", "list"])] for _ in range(R.randint(2, 8))]
-        case = {"kind": "combo", "items": items}
+        case = {"kind": "combo", "items": items, "suppress": R.choice([[], [], ["myst"], ["myst.*"], ["myst.strikethrough", "docutils"], ["myst", "ref", "docutils.*"]])}
         nt = eval_case(ctx, case)
         ctx.case(repr(case), bool(nt))
         if i < 2:
